@@ -271,7 +271,7 @@ func c13NewServer(t testing.TB, obs *c13PanicObs) *apih.Server {
 		}()
 		return handler(ctx, req)
 	}
-	s := apih.NewServer(t, apih.Options{OPL: c08OPL, UnaryInterceptors: []grpc.UnaryServerInterceptor{ic}})
+	s := apih.NewServer(t, apih.Options{Config: map[string]any{"namespaces": c08OPLLocation()}, UnaryInterceptors: []grpc.UnaryServerInterceptor{ic}})
 	c13Seed(s)
 	return s
 }
@@ -440,7 +440,12 @@ func (p *c13Parent) runRange(lo, hi int) {
 		logf := filepath.Join(p.dir, fmt.Sprintf("c13-worker-%d.log", id))
 		_ = os.Remove(journal)
 		out, _ := os.Create(logf)
-		cmd := exec.Command(os.Args[0], "-test.run", "^TestC13Worker$", "-test.timeout", "0", "-test.count", "1")
+		// /proc/self/exe is the image that is running, even if the file at os.Args[0] was rebuilt meanwhile
+		self := "/proc/self/exe"
+		if _, err := os.Stat(self); err != nil {
+			self = os.Args[0]
+		}
+		cmd := exec.Command(self, "-test.run", "^TestC13Worker$", "-test.timeout", "0", "-test.count", "1")
 		cmd.Env = append(os.Environ(), fmt.Sprintf("%s=%d:%d", c13EnvWork, lo, hi), c13EnvJournal+"="+journal, "GOMAXPROCS=2")
 		cmd.Stdout, cmd.Stderr = out, out
 		p.spawned.Add(1)
@@ -610,10 +615,17 @@ func c13Class(route, field, choice string) string {
 		case "absent-subject", "valid-then-absent-subject", "absent-subject-then-valid", "empty-tuple", "nil-element":
 			return "contains-tuple-without-subject-message"
 		}
-	case field == "page_size":
+	case route == "rest-patch" && field == "shape":
+		switch choice {
+		case "array-null", "valid-then-null", "null-then-valid":
+			return "contains-null-delta"
+		}
+	case field == "page_size" || field == "max-depth" || field == "max_depth":
 		switch choice {
 		case "negative", "min-int32", "min-int":
 			return "negative"
+		case "abc", "empty", "exp", "float", "overflow", "oversized", "space", "dup-bad-first":
+			return "not-an-integer"
 		}
 	}
 	return choice
